@@ -180,6 +180,11 @@ func (rep *Report) nativePhase() error {
 						confirmed = res.Outcome == "timeout"
 					default:
 						confirmed = contains(res.Failed, ref.label)
+						if !confirmed && ref.path.Outcome == "panic" && (res.Outcome == "panic" || res.Outcome == "crash") {
+							// the path fails an assertion and then panics; natively the panic (in a goroutine of the
+							// library: the whole test process dies) took the list of failed assertions with it
+							confirmed = true
+						}
 					}
 				}
 				if confirmed {
